@@ -5,25 +5,23 @@
    length suffices) and forgets the count (lift_fst).  Bind._unpack calls ContextElement.unpack := the model function
    at the world's fuel, so its tie is stated for the same fuel. *)
 From V Require Import Prelude.Base Prelude.PyInt Prelude.PySlice Prelude.PyStr Prelude.PyAst Prelude.PyWorld gen.F_rpc.
-From V Require Import Model.Pdu Model.Request Model.RpcLoop Model.Bind Model.Verification Model.Epm Flow.World_rpc Proofs.Flow_rpc_lib.
+From V Require Import Model.Pdu Model.Request Model.RpcLoop Model.Bind Model.Verification Model.Epm Flow.World_rpc Proofs.Flow_rpc_lib Proofs.Flow_rpc_pdu.
 From V Require Import Proofs.RpcTotalLib Proofs.RpcTotalPdu.
 Local Open Scope string_scope.
 Local Open Scope list_scope.
 Local Open Scope Z_scope.
 
 Lemma flow_syntaxid_pack mf fuel s :
-  run (W mf) fuel k_flow_syntaxid_pack [VO (OSyntaxId s)] =
-  chk (in_range 2 (sy_version s) && in_range 2 (sy_version_minor s)) (syntax_id_pack s).
-Proof. unfold syntax_id_pack, chk. destruct s; tie. Qed.
+  run (W mf) fuel k_flow_syntaxid_pack [VO (OSyntaxId s)] = chk (syntax_id_ranges s) (syntax_id_pack s).
+Proof. unfold syntax_id_pack, syntax_id_ranges, chk. destruct s; tie. Qed.
 
 Lemma flow_syntaxid_unpack mf fuel data :
   run (W mf) fuel k_flow_syntaxid_unpack [VO (OCls CSyntaxId); VB data] = (let* s := syntax_id_unpack data in Ok (VO (OSyntaxId s))).
 Proof. unfold syntax_id_unpack. tie. Qed.
 
 Lemma flow_contextresult_pack mf fuel r :
-  run (W mf) fuel k_flow_contextresult_pack [VO (OContextResult r)] =
-  chk (in_range 2 (cr_result r) && in_range 2 (cr_reason r) && in_range 4 (cr_syntax_version r)) (context_result_pack r).
-Proof. unfold context_result_pack, chk. destruct r; tie. Qed.
+  run (W mf) fuel k_flow_contextresult_pack [VO (OContextResult r)] = chk (context_result_ranges r) (context_result_pack r).
+Proof. unfold context_result_pack, context_result_ranges, chk. destruct r; tie. Qed.
 
 Lemma flow_contextresult_unpack mf fuel data :
   run (W mf) fuel k_flow_contextresult_unpack [VO (OCls CContextResult); VB data] =
@@ -31,11 +29,10 @@ Lemma flow_contextresult_unpack mf fuel data :
 Proof. unfold context_result_unpack. tie. Qed.
 
 Lemma flow_contextelement_pack mf fuel c :
-  run (W mf) fuel k_flow_contextelement_pack [VO (OContextElement c)] =
-  chk (in_range 2 (ce_context_id c) && in_range 2 (len (ce_transfer_syntaxes c))) (context_element_pack c).
+  run (W mf) fuel k_flow_contextelement_pack [VO (OContextElement c)] = chk (context_element_ranges c) (context_element_pack c).
 Proof.
-  unfold context_element_pack, chk, k_flow_contextelement_pack. destruct c as [ci a ts].
-  hide_comps. tie. comp_step OSyntaxId syntax_id_pack. tie.
+  unfold context_element_pack, context_element_ranges, chk, k_flow_contextelement_pack. destruct c as [ci a ts].
+  hide_comps. tie. all: comp_step OSyntaxId syntax_id_ranges syntax_id_pack; tie.
 Qed.
 
 
@@ -190,31 +187,26 @@ Lemma flow_altercontextresponse_unpack_body mf mfuel fuel data h st : bind_ack_u
 Proof. apply flow_bindack_unpack_as. auto. Qed.
 
 Lemma flow_bind_pack mf fuel m :
-  run (W mf) fuel k_flow_bind_pack [VO (OBind m)] =
-  chk (in_range 2 (b_max_xmit_frag m) && in_range 2 (b_max_recv_frag m) && in_range 4 (b_assoc_group m)
-       && in_range 4 (len (b_contexts m))) (bind_pack m).
+  run (W mf) fuel k_flow_bind_pack [VO (OBind m)] = chk (bind_ranges m) (bind_pack m).
 Proof.
-  unfold bind_pack, bind_body, opt_sec_trailer_pack, chk, k_flow_bind_pack. destruct m as [h [st|] mx mr ag cs].
-  all: hide_comps; tie; comp_step OContextElement context_element_pack; tie.
+  unfold bind_pack, bind_body, opt_sec_trailer_pack, bind_ranges, chk, k_flow_bind_pack. destruct m as [h [st|] mx mr ag cs].
+  all: hide_comps; tie. all: comp_step OContextElement context_element_ranges context_element_pack; tie.
 Qed.
 
 
 Lemma flow_bindack_pack mf fuel m :
   run (W mf) fuel k_flow_bindack_pack [VO (OBindAck m)] =
   (let* bsa := sec_addr_bytes (ba_sec_addr m) in
-   chk (in_range 2 (ba_max_xmit_frag m) && in_range 2 (ba_max_recv_frag m) && in_range 4 (ba_assoc_group m)
-        && in_range 2 (len bsa) && in_range 4 (len (ba_results m)))
+   chk (bind_ack_ranges m bsa)
        (pdu_header_pack (ba_header m) ++ bind_ack_body_of m bsa ++ opt_sec_trailer_pack (ba_sec_trailer m))).
 Proof.
-  unfold sec_addr_bytes, bind_ack_body_of, opt_sec_trailer_pack, chk, k_flow_bindack_pack, k_bindack_pack_pad.
+  unfold sec_addr_bytes, bind_ack_body_of, opt_sec_trailer_pack, bind_ack_ranges, chk, k_flow_bindack_pack, k_bindack_pack_pad.
   destruct m as [h st mx mr ag sa rs].
   match goal with |- context [SAssign ["b_result"] ?e] => remember e as jc eqn:Hjc end.
   destruct sa as [|ch sa].
-  - destruct st as [st|]; tie; comp_step OContextResult context_result_pack; tie.
-    all: rewrite ?repeat_list_0; try reflexivity.
+  - destruct st as [st|]; tie. all: comp_step OContextResult context_result_ranges context_result_pack; tie.
   - assert (Hl : (len (ch :: sa) =? 0) = false) by (rewrite len_cons; pose proof (len_nonneg sa); lia).
-    destruct st as [st|]; tie1; rewrite Hl; tie; comp_step OContextResult context_result_pack; tie.
-    all: rewrite ?repeat_list_0; try reflexivity.
+    destruct st as [st|]; tie1; rewrite Hl; tie. all: comp_step OContextResult context_result_ranges context_result_pack; tie.
 Qed.
 
 
@@ -231,11 +223,9 @@ Proof.
 Qed.
 
 Lemma flow_bindnak_pack mf fuel m :
-  run (W mf) fuel k_flow_bindnak_pack [VO (OBindNak m)] =
-  chk (forallb (fun v => in_range 1 (fst v) && in_range 1 (snd v)) (bn_versions m) && in_range 1 (len (bn_versions m))
-       && in_range 2 (bn_reject_reason m)) (bind_nak_pack m).
+  run (W mf) fuel k_flow_bindnak_pack [VO (OBindNak m)] = chk (bind_nak_ranges m) (bind_nak_pack m).
 Proof.
-  unfold bind_nak_pack, bind_nak_body, chk, k_flow_bindnak_pack, k_bindnak_pad. destruct m as [h st rr vs].
+  unfold bind_nak_pack, bind_nak_body, bind_nak_ranges, chk, k_flow_bindnak_pack, k_bindnak_pad. destruct m as [h st rr vs].
   match goal with |- context [SAssign ["protocols"] ?e] => remember e as pc eqn:Hpc end.
   tie1. rewrite Hpc, eval_comp. cbn. unfold vversions. cbn. rewrite comp_nak_protocols.
   destruct (forallb _ vs); [|reflexivity].
@@ -271,3 +261,48 @@ Proof. intros H. apply flow_bindack_unpack. exact (proj1 (total_le_spec _ _ (bin
 Lemma flow_bindnak_unpack_total mf mfuel fuel data h st : len data < Z.of_nat mfuel ->
   run (W mf) fuel k_flow_bindnak_unpack [VO (OCls CBindNak); VB data; VO (OHeader h); vst st] = lift_fst OBindNak (bind_nak_unpack mfuel data h st).
 Proof. intros H. apply flow_bindnak_unpack. exact (proj1 (total_le_spec _ _ (bind_nak_unpack_total mfuel data h st H))). Qed.
+
+(* ---- well-formed values are in range ---- *)
+Lemma forallb_impl {A} (f g : A -> bool) l : (forall x, f x = true -> g x = true) -> forallb f l = true -> forallb g l = true.
+Proof. intros Hfg. rewrite !forallb_forall. intros H x Hx. apply Hfg, H, Hx. Qed.
+Lemma in_range_1_4 x : in_range 1 x = true -> in_range 4 x = true.
+Proof. unfold in_range. rewrite P_1, P_4. lia. Qed.
+
+Lemma wf_syntax_id_ranges s : wf_syntax_id s = true -> syntax_id_ranges s = true.
+Proof. unfold wf_syntax_id, syntax_id_ranges. intros H. split_wf H. use_true. Qed.
+Lemma wf_context_element_ranges c : wf_context_element c = true -> context_element_ranges c = true.
+Proof.
+  unfold wf_context_element, context_element_ranges. intros H. split_wf H.
+  pose proof (wf_syntax_id_ranges _ H2). pose proof (forallb_impl _ _ _ wf_syntax_id_ranges H1). use_true.
+Qed.
+Lemma wf_context_result_ranges r : wf_context_result r = true -> context_result_ranges r = true.
+Proof.
+  unfold wf_context_result, context_result_ranges. intros H. split_wf H.
+  pose proof (mem_in_range 2 _ c_ContextResultCode_values eq_refl H). use_true.
+Qed.
+Lemma wf_bind_ranges pt m : wf_bind_as pt m = true -> bind_ranges m = true.
+Proof.
+  unfold wf_bind_as, bind_ranges. intros H. split_wf H.
+  match goal with H : in_range 1 _ = true |- _ => pose proof (in_range_1_4 _ H) end.
+  match goal with H : forallb wf_context_element _ = true |- _ => pose proof (forallb_impl _ _ _ wf_context_element_ranges H) end.
+  wf_msg.
+Qed.
+Lemma wf_bind_ack_ranges pt m packed bsa : wf_bind_ack_as pt m packed bsa = true -> bind_ack_ranges m bsa = true.
+Proof.
+  unfold wf_bind_ack_as, bind_ack_ranges. intros H. split_wf H.
+  match goal with H : in_range 1 _ = true |- _ => pose proof (in_range_1_4 _ H) end.
+  match goal with H : forallb wf_context_result _ = true |- _ => pose proof (forallb_impl _ _ _ wf_context_result_ranges H) end.
+  wf_msg.
+Qed.
+
+(* Bind / AlterContext (pt = c_PT_BIND / c_PT_ALTER_CONTEXT) and BindAck / AlterContextResponse on well-formed messages *)
+Lemma flow_bind_pack_wf mf fuel pt m : wf_bind_as pt m = true ->
+  run (W mf) fuel k_flow_bind_pack [VO (OBind m)] = Ok (VB (bind_pack m)).
+Proof. intros H. rewrite flow_bind_pack, (wf_bind_ranges pt m H). reflexivity. Qed.
+Lemma flow_bindack_pack_wf mf fuel pt m packed bsa :
+  sec_addr_bytes (ba_sec_addr m) = Ok bsa -> wf_bind_ack_as pt m packed bsa = true ->
+  run (W mf) fuel k_flow_bindack_pack [VO (OBindAck m)] = (let* p := bind_ack_pack m in Ok (VB p)).
+Proof.
+  intros Hs H. rewrite flow_bindack_pack. unfold bind_ack_pack. rewrite Hs. cbn [bind].
+  rewrite (wf_bind_ack_ranges pt m packed bsa H). reflexivity.
+Qed.
